@@ -1015,7 +1015,12 @@ def run_real(ctx, run, sut_dir, idx, seeded_break=None):
     check_log(events, ctx, source, case)
     if res.get("error"):
         # an AssertionError of the archive's own invariant shows up in the log as mio.assert (a witness); anything else is harness trouble
-        if not any(e["t"] == "mio.assert" for e in events):
+        if "Some covered targets have a fitness != 0.0" in res["error"]:
+            # CoverageArchive's own invariant (solutions -> _all_covered): a covered target is held by a test that does not cover it
+            ctx.ok(cls=f"real-run:{run['algo']}")
+            ctx.witness("archive-own-invariant:covered-target-with-positive-fitness:CoverageArchive",
+                        f"[{source}] the run ended with the archive's own assertion: {res['error'][:200]}", case)
+        elif not any(e["t"] == "mio.assert" for e in events):
             ctx.inconclusive_because(f"{tag}: run failed: {res['error'][:300]}")
         return
     if not res.get("search_finished"):
